@@ -451,6 +451,29 @@ def g4_g5_g6(rep, tms):
                                         "optional model field %s.%s is read by an unconditional mandatory "
                                         "parse step: messages without tag %s are rejected"
                                         % (G.short(sty), fname, s.tag), tm.file, s.ln))
+        # a sub-struct built only under a condition must be built whenever any of its (already parsed) parts
+        # is present: every local that feeds it from an optional step outside the branch occurs in the condition
+        top_conds = len(by_ty[tm.T][0].conds)
+        for inst in structs:
+            extra = [c for c in inst.conds[top_conds:] if c[0] == "if" and c[2] is True]
+            for c in extra:
+                ifn = inst.ifnodes.get(c[1])
+                if ifn is None:
+                    continue
+                cond_locals = {x["id"] for x in walk(ifn["cond"]) if x.get("k") == "local"}
+                for fname, av in inst.fields.items():
+                    outside = [tm.g.sites[a[1]] for a in av.flat() if a[0] == "P" and c not in tm.g.sites[a[1]].conds]
+                    if not outside:
+                        continue
+                    r4["instances"] += 1
+                    lid_ = inst.field_locals.get(fname)
+                    if lid_ is None or lid_ not in cond_locals:
+                        rep.add(Finding("G4", tm.pfn, "%s.%s:conditional-drop" % (G.short(inst.path), fname),
+                                        "%s is only built when a condition holds that does not mention `%s` (tag %s), "
+                                        "although that field has already been consumed from the text: when only it is "
+                                        "present the message is accepted and the field dropped"
+                                        % (G.short(inst.path), fname, "/".join(sorted({s.tag or '?' for s in outside}))),
+                                        tm.file, ifn.get("ln")))
         # every struct field that a step can fill is appended; every step feeds an append
         for inst in structs:
             for fname, av in inst.fields.items():
@@ -571,7 +594,34 @@ def g8(rep, tms):
                                     "in the body (steps for it: %d, all conditional): an iteration opened by "
                                     "%s may consume nothing" % ("|".join(lp["detect"]), m, len(steps), m),
                                     tm.file, lp["ln"]))
+            # a marker step whose error is discarded must leave the loop on failure, otherwise a field that
+            # fails without consuming (duplicate refused, invalid content) keeps the condition true forever
+            for s in inside:
+                if s.tag in lp["detect"] and s.consumer in ("if:Ok", "letx:Ok") and s.loops and s.loops[-1] == lid:
+                    ifn = getattr(s, "if_node", None)
+                    if ifn is not None and not (ifn.get("else") is not None and _leaves_loop(ifn["else"])):
+                        rep.add(Finding("G8", lp["fn"], "loop:%s:no-exit-on-error" % "|".join(lp["detect"]),
+                                        "loop on detect_field(%s): when the step for %s fails the loop neither "
+                                        "breaks nor returns; a field that is refused without being consumed keeps "
+                                        "detect_field true and the loop never terminates"
+                                        % ("|".join(lp["detect"]), s.tag), tm.file, s.ln))
     return r
+
+
+def _leaves_loop(n):
+    if n is None:
+        return False
+    k = n.get("k")
+    if k in ("break", "ret"):
+        return True
+    if k == "block":
+        for st in n.get("stmts") or []:
+            if _leaves_loop(st):
+                return True
+        return _leaves_loop(n.get("expr")) if n.get("expr") is not None else False
+    if k == "if":
+        return n.get("else") is not None and _leaves_loop(n["then"]) and _leaves_loop(n["else"])
+    return False
 
 
 def _cond_on_same_tag(s, m):
